@@ -277,7 +277,8 @@ class AsyncClient(base_client.BaseClient):
         for pkt in p.packets[1:]:
             await self._receive_packet(pkt)
 
-        if 'websocket' in self.upgrades and 'websocket' in self.transports:
+        if self.state == 'connected' and 'websocket' in self.upgrades and \
+                'websocket' in self.transports:
             # attempt to upgrade to websocket
             if await self._connect_websocket(url, headers, engineio_path):
                 # upgrade to websocket succeeded, we're done here
